@@ -16,6 +16,9 @@ History ops:
   ["W", name, q, n]           park the flush worker at fw_published, STORE n events that fill the memtable,
                               REMEMBER inside the window, release
   ["H", name]                 SHOW m<name>, then QUERY <q> (the oracle's reference), back to back
+  ["HF", name, bytes]         SHOW m<name> whose response writer fails with BrokenPipe after <bytes> bytes (!failwrite): the
+                              client hung up; frames appended so far stay in the store, the catalog entry is not rewritten
+  ["B", n]                    n STOREs (context c00) without waiting in between, then quiescence
 q = {"ctx": int|None, "where": [op, n]|None, "since": off|None, "tf": "C"|"P", "ret": None|["k"]|["k","pt"], "limit": n|None}
 """
 import concurrent.futures, json, os, re, subprocess, time
@@ -26,14 +29,15 @@ from props import base
 PROP = "C14"
 PROPS_V = "theories/Props/C14.v"
 THEOREMS = ["C14_show_eq_query_reach", "C14_show_eq_query_core", "C14_stored_below_mark", "C14_monotone_clock_suffices",
-            "C14_refuted_EventNotAboveMark_component_max", "C14_show_idempotent", "C14_remember_dup_rejected",
+            "C14_refuted_EventNotAboveMark_component_max", "C14_show_idempotent",
+            "C14_failed_show_then_show_exact", "C14_failed_show_state", "C14_refuted_InterruptedRefresh", "C14_failed_show_example", "C14_remember_dup_rejected",
             "C14_remember_fresh_accepted", "C14_show_eq_query_refuted", "C14_refuted_MarkOfLastFrame",
             "C14_refuted_PayloadTimeField_dup", "C14_refuted_PayloadTimeField_lost", "C14_refuted_PayloadTimeField_hidden",
             "C14_refuted_EventNotAboveMark", "C14_refuted_LimitNotReapplied", "C14_refuted_RawStreamDuplicates",
             "C14_refuted_SegmentOlderThanEvent", "C14_show_eq_query_outside_known", "C14_no_class_is_good",
             "C14_outside_known_example"]
 RULE = ("engine histories over 1..3 shards (STORE with pinned second / scripted millisecond clock, FLUSH, compaction round, "
-        "restart, REMEMBER, SHOW followed by QUERY) for queries with FOR / WHERE / SINCE / USING / RETURN / LIMIT, plus "
+        "restart, REMEMBER, SHOW followed by QUERY, SHOW whose response writer fails after n bytes) for queries with FOR / WHERE / SINCE / USING / RETURN / LIMIT, plus "
         "function-level append sequences of MaterializedSink and HighWaterMark op sequences; a history is non-trivial when "
         "a SHOW of an existing materialisation returned at least one row; distinct by (configuration, op sequence)")
 ASSUMPTIONS = [
@@ -117,6 +121,8 @@ def show_ops(ops):
         elif o[0] == "R": out.append(f"REMEMBER[{show_q(o[2])}] AS m{o[1]}")
         elif o[0] == "W": out.append(f"park(fw_published);S x{o[3]};REMEMBER[{show_q(o[2])}] AS m{o[1]};release")
         elif o[0] == "H": out.append(f"SHOW m{o[1]}")
+        elif o[0] == "HF": out.append(f"failwrite({o[2]});SHOW m{o[1]}")
+        elif o[0] == "B": out.append(f"S x{o[1]}")
         else: out.append(o[0])
     return " ".join(out)
 
@@ -150,6 +156,7 @@ class Hist:
         self.stores_since = {}  # name -> stores since the previous SHOW
         self.prev_show = {}
         self.last_layout = None
+        self.faulted = {}      # name -> a SHOW failed since the last healthy one
 
     # -- clocks
     def pin(self):
@@ -272,6 +279,25 @@ class Hist:
             fr.append((mark, ks))
         return fr
 
+    def catalog_mark(self, name):
+        out = fn_probe(f"mat_catalog {hx(os.path.join(self.eng.root, 'cols'))} m{name}")
+        m = re.match(r"cat=(\d+\.\d+) rows=(\d+)", out)
+        if not m:
+            self.notes.append(f"catalog probe for m{name}: {out[:100]}")
+            return "?"
+        return m.group(1)
+
+    def settled_frames(self, name):
+        """frames after a failed SHOW: the aborted delta task can still finish an append it had begun"""
+        prev = self.frames(name)
+        for _ in range(20):
+            self.eng.cmd("!sleep 40")
+            cur = self.frames(name)
+            if cur == prev:
+                return cur
+            prev = cur
+        return prev
+
     def choice(self, shards, new_frames):
         """source index of every new frame: a source that holds all of the frame's keys (an event can sit in the
         memtable and in a segment at once), frames with the fewest candidates first"""
@@ -328,9 +354,27 @@ class Hist:
             self.obs.append("R error " + out[:120])
             self.shows.append({"kind": "remember-error", "name": name, "msg": out[:200]})
 
-    def do_show(self, name, shards):
+    def do_show(self, name, shards, fail=None):
         before = self.frames(name)
-        r = self.eng.rows(f"SHOW m{name}")
+        if fail is not None:
+            self.eng.cmd(f"!failwrite {fail}")
+        raw = self.eng.cmd(f"SHOW m{name}")
+        r = engine.parse_stream(raw)
+        failed = fail is not None and (raw.get("error") is not None or r["status"] != 200 or r.get("count") is None)
+        if failed:
+            # the client saw an error (or nothing); what matters is what the engine kept
+            after = self.settled_frames(name)
+            new = after[len(before):]
+            self.tokens.append(f"F:{name}:{self.choice(shards, new)}")
+            if name not in self.queries:
+                self.obs.append("S unknown")
+                self.shows.append({"kind": "show-failed", "name": name, "appended": 0})
+                return
+            mark = after[-1][0] if after else "0.0"
+            self.obs.append(f"F new={self.frames_str(new)} mark={mark} cat={self.catalog_mark(name)}")
+            self.shows.append({"kind": "show-failed", "name": name, "appended": len(new), "bytes": fail,
+                               "delivered": len(raw.get("out", ""))})
+            return
         after = self.frames(name)
         new = after[len(before):]
         self.tokens.append(f"S:{name}:{self.choice(shards, new)}")
@@ -343,9 +387,10 @@ class Hist:
             return
         ks = sorted(int(x["k"]) for x in r["rows"])
         mark = after[-1][0] if after else "0.0"
-        self.obs.append(f"S out={'+'.join(map(str, ks)) or '-'} new={self.frames_str(new)} mark={mark}")
+        self.obs.append(f"S out={'+'.join(map(str, ks)) or '-'} new={self.frames_str(new)} mark={mark} cat={self.catalog_mark(name)}")
         q = self.queries.get(name)
-        d = {"kind": "show", "name": name, "show": ks, "q": q}
+        d = {"kind": "show", "name": name, "show": ks, "q": q, "after_fault": self.faulted.get(name, False)}
+        self.faulted[name] = False
         if q is not None:
             rq = self.eng.rows(q_text(q, self.base))
             d["query"] = sorted(int(x["k"]) for x in rq["rows"]) if rq["status"] == 200 else f"ERR {rq.get('message')}"
@@ -404,6 +449,15 @@ class Hist:
                     self.quiesce()
                     shards = self.emit_layout()
                     self.do_show(op[1], shards)
+                elif t == "HF":
+                    self.quiesce()
+                    shards = self.emit_layout()
+                    self.faulted[op[1]] = True
+                    self.do_show(op[1], shards, fail=op[2])
+                elif t == "B":
+                    for i in range(op[1]):
+                        self.do_store(0, i % 4, 0, wait=False)
+                    self.quiesce()
             return {"line": "mat_run " + " ".join(self.tokens), "obs": " | ".join(self.obs), "shows": self.shows,
                     "notes": self.notes}
         finally:
@@ -541,9 +595,12 @@ def oracle(c, impl):
             if sh != qu:
                 extra = sorted(set(k for k in sh if sh.count(k) > qu.count(k)))
                 miss = sorted(set(k for k in qu if qu.count(k) > sh.count(k)))
-                return (f"op#{n}: SHOW m{d['name']} returned {sh}, QUERY issued right after returned {qu}"
+                def brief(l):
+                    return l if len(l) <= 40 else f"{len(l)} rows [{l[0]}..{l[-1]}]"
+                return (f"op#{n}: SHOW m{d['name']} returned {brief(sh)}, QUERY issued right after returned {brief(qu)}"
                         + (f"; returned more than once or not selected: {extra}" if extra else "")
-                        + (f"; missing: {miss}" if miss else ""))
+                        + (f"; missing: {miss}" if miss else "")
+                        + ("; first healthy SHOW after a SHOW whose delivery failed" if d.get("after_fault") else ""))
         else:
             alln = d.get("query_nolimit", [])
             if len(sh) != len(qu) or len(set(sh)) != len(sh) or not set(sh) <= set(alln):
@@ -662,6 +719,52 @@ def gen_history(rng, cfg, n_ops, tf="C", limit=False, p_back=0):
     return ops
 
 
+def gen_fault_history(rng, cfg, tf="C"):
+    """SHOW -> failed SHOW (non-empty snapshot, non-empty delta) -> STOREs -> SHOW, with FLUSH / compaction / restart
+    around the failure and several failures in a row"""
+    ops, now = [], 0
+
+    def stores(n):
+        nonlocal now
+        for _ in range(n):
+            if rng.chance(1, 3):
+                now += rng.range(1, 2)
+                ops.append(("N", now))
+            ops.append(("S", rng.below(3), rng.below(4), rng.range(-3, 3) if tf == "P" else 0))
+
+    def fail():
+        return ("HF", 1, rng.choice([0, 0, 1, 50, 200, 1000]))
+    q = gen_query(rng, tf)
+    if rng.chance(2, 3):
+        q["since"] = None
+    stores(rng.range(1, 4))
+    if rng.chance(1, 3):
+        ops.append(("F",))
+    ops.append(("R", 1, q))
+    if rng.chance(1, 2):
+        ops.append(("H", 1))
+    for _ in range(rng.range(1, 3)):
+        stores(rng.range(1, 3))
+        if rng.chance(1, 2):
+            ops.append(("F",))
+            stores(rng.range(0, 2))
+        if rng.chance(1, 5):
+            ops.append(("C",))
+        ops.append(fail())
+        r = rng.below(6)
+        if r == 0:
+            ops.append(("X",))
+        elif r == 1:
+            ops.append(fail())
+        elif r == 2:
+            ops += [("F",), ("C",)]
+        stores(rng.range(0, 3))
+        ops.append(("H", 1))
+        if rng.chance(1, 3):
+            ops.append(("H", 1))
+    return ops
+
+
 def cases(rng, tier):
     out = []
     quick = tier == "quick"
@@ -729,6 +832,20 @@ def cases(rng, tier):
                 ops.append(("F",))
             ops.append(("H", 1))
         out.append(mk_case("frozen_clock", cfg, ops))
+    for i in range(14 if quick else 400):
+        cfg = rng.choice(CFGS)
+        out.append(mk_case("show_fault", cfg, gen_fault_history(rng, cfg)))
+    for i in range(2 if quick else 40):
+        cfg = rng.choice(CFGS)
+        out.append(mk_case("show_fault_payload", cfg, gen_fault_history(rng, cfg, tf="P")))
+    for i in range(1 if quick else 25):
+        # a response above the writer's 64 KiB buffer: the failure comes mid-stream and aborts the delta task
+        cfg = {"shards": 1, "fill_factor": 50, "event_per_zone": 50}
+        qall = {"ctx": None, "where": None, "since": None, "tf": "C", "ret": None, "limit": None}
+        ops = [("B", 1400 + 50 * rng.below(4)), ("R", 1, qall), ("R", 2, qall), ("N", 2), ("F",), ("S", 0, 1, 0), ("S", 0, 1, 0), ("S", 0, 1, 0),
+               ("F",), ("N", 4), ("S", 0, 1, 0), ("S", 0, 1, 0), ("HF", 1, rng.choice([0, 70000])), ("HF", 2, 0), ("H", 1), ("H", 2),
+               ("S", 0, 1, 0), ("H", 1), ("H", 2)]
+        out.append(mk_case("show_fault_big", cfg, ops))
     for i in range(4 if quick else 60):
         # wall clock stepping backwards between STOREs
         cfg = rng.choice(CFGS)
